@@ -81,3 +81,32 @@ Definition tamper (s : sstore) (i : N) (e : entry) : sstore :=
 
 Definition same_shape (a b : sstore) : Prop :=
   s_first a = s_first b /\ length (s_logs a) = length (s_logs b).
+
+(* [sh] is the log as WRITTEN (ghost): it ends where the store [st] ends, but
+   pure head truncations (log compaction) do not erase it, so it may start
+   earlier.  Both are empty together. *)
+Definition aligned (st sh : sstore) : Prop :=
+  match s_logs st, s_logs sh with
+  | [], [] => True
+  | _ :: _, _ :: _ =>
+      s_first sh <= s_first st /\
+      s_first sh + N.of_nat (length (s_logs sh)) = s_first st + N.of_nat (length (s_logs st))
+  | _, _ => False
+  end.
+
+(* the written log after a successful DeleteRange(mn, mx) of the store [st]:
+   only a delete that reaches the last index (tail truncation, or everything)
+   removes what was written; [st] is the store BEFORE the delete *)
+Definition shadow_delete (st sh : sstore) (mn mx : N) : sstore :=
+  if mx <? mn then sh
+  else match s_logs st with
+       | [] => sh
+       | _ :: _ =>
+           let l := last_index st in
+           if l <=? mx then
+             if l <? mn then sh
+             else if mn <=? s_first st then s_empty
+                  else {| s_first := s_first sh;
+                          s_logs := firstn (N.to_nat (mn - s_first sh)) (s_logs sh) |}
+           else sh
+       end.
